@@ -164,7 +164,7 @@ def run(ctx):
             if out["certs"] is not None:
                 msg, n = check_trace_against_labelling(real["trace"], out["certs"])
                 out["trace_msg"], out["trace_checked"] = msg, n
-            if proj["kind"] != "corpus" and len(real["trace"]) <= 6000:
+            if proj["kind"] != "corpus" and len(real["trace"]) <= 2500:
                 entry = proj["entry"][:-3] + ".mmm#__module__"
                 model = vmtie.run_model(drv, real["dump"], entry)
                 out["t2"] = vmtie.compare(proj, real, model)
